@@ -145,6 +145,34 @@ def pratt_corpus(tier):
     return out
 
 
+def oc_family(tier):
+    """Ordered-choice micro-grammars enumerated by shape: first alternative (consumes, may fail late) x
+    last alternative (incl. nullable ones) x context (sibling rule after, tokens around, loop, start
+    rule, elided rule), all with a skipped token.  lelwel itself filters the accepted ones."""
+    import random
+    firsts = ["A B", "A B C", "t B", "A u", "A (B | C) D", "A [B] C", "A B* C", "<1 A B 1>x C", "A @n B",
+              "A ^ B", "A ~ B C", "A B ~ C", "A !1 B"]
+    lasts = ["A C", "[C]", "A*", "A", "t C", "C", "A [C]", "()"]
+    ctxs = [("sib", "s: r t2;\nr: %s;\nt2: A D;\n"), ("mid", "s: P r Q;\nr: %s;\n"),
+            ("loop", "s: (r)* D;\nr: %s;\n"), ("start", "s: %s;\n"), ("elided", "s: r+ D;\nr^: %s;\n"),
+            ("create", "s: P <1 r 1>y Q;\nr: %s;\n")]
+    out = []
+    for i, f in enumerate(firsts):
+        for j, l in enumerate(lasts):
+            for cn, ct in ctxs:
+                body = "%s / %s" % (f, l)
+                rules = ct % body
+                text = "token A B C D P Q W;\nskip W;\nstart s;\n" + rules
+                if " t " in " " + body + " " or body.startswith("t "):
+                    text += "t: A;\n"
+                if " u" in body:
+                    text += "u: B C;\n"
+                out.append(("oc_%d_%d_%s" % (i, j, cn), text))
+    rng = random.Random(seed())
+    rng.shuffle(out)
+    return out[: (60 if tier == "quick" else 400)]
+
+
 KEEP_EV = {
     "C01": (), "C03": (), "C04": (), "C06": (),
     "C02": ("create", "delete"), "C05": ("act",), "C16": ("pred",), "C08": ("create", "delete", "act"),
@@ -232,6 +260,8 @@ def judge(prop, tier):
     files = corpus_files()
     if prop == "C07":
         files = files + pratt_corpus(tier)
+    if prop in ("C01", "C02", "C03", "C08", "C16"):
+        files = files + oc_family(tier)
     built = build_all(files)
     cap = 1600 if tier == "quick" else 30000
     if prop == "C07":
@@ -327,6 +357,12 @@ def judge(prop, tier):
         rep.coverage["reference_runs"] = ref
         rep.coverage["states"] += ref["states"]
         rep.coverage["transitions"] += ref["transitions"]
+    if prop == "C03":
+        names = ("a06", "c04", "d01", "d06")
+        fsel = [b for b in sel if tier == "thorough" or b.name[:3] in names]
+        rep.coverage["free_exploration"] = free_stage(fsel, cap)
+        rep.coverage["states"] += rep.coverage["free_exploration"]["states"]
+        rep.coverage["transitions"] += rep.coverage["free_exploration"]["transitions"]
     if prop in ("C01", "C03", "C08"):
         # machine specification run on the same points: drift report + model-level invariants
         mach, _ = machine_stage(sel, cap)
@@ -615,4 +651,38 @@ def reference_stage(rep, sel, cap):
                                       "outcome": o})
     if out["selftest_unmatched"] < out["grammars"]:
         raise ToolError("reference binding self-test failed: an impossible record was matched")
+    return out
+
+
+def free_stage(sel, cap):
+    """MC_P2F: TLC explores the machine spec over all inputs x all predicate/assertion outcomes
+    with the model-level invariants, and the set of completed behaviours is compared with the
+    set of points the runner recorded from the real parser (enumeration cross-check)."""
+    def one(b):
+        outs, meta = outcomes_for(b, cap, False)
+        wd = cache_dir("p2", b.name)
+        gfile = os.path.join(wd, "GM.ndjson")
+        write_ndjson(gfile, [machine_grammar(b)])
+        pfile = os.path.join(wd, "PF.ndjson")
+        write_ndjson(pfile, [{"alpha": meta["alphabet"], "n": meta["n"], "asbuilt": ["RestoreKeepsErrorState"]}])
+        res = run_tlc("MC_P2F", "MC_P2F.cfg", env={"GFILE": gfile, "PFILE": pfile}, workers=3, timeout=2400,
+                      xmx="4g", job="p2f-%s" % b.name)
+        return b, outs, res
+    out = {"grammars": 0, "states": 0, "transitions": 0, "behaviours": 0, "invariant_violations": {},
+           "enumeration_mismatch": {}, "errors": {}}
+    for b, outs, res in parallel(one, sel, jobs=4):
+        out["grammars"] += 1
+        out["states"] += res.distinct
+        out["transitions"] += res.generated
+        if res.error:
+            out["errors"][b.name] = res.error[:200]
+            continue
+        if res.violated:
+            out["invariant_violations"][b.name] = res.violated
+            continue
+        done = {(d["en"], tuple(d["w"]), tuple(d["u"])) for d in res.payload("DONE") if d}
+        rec = {(o["en"], tuple(o["w"]), tuple(o["s"])) for o in outs}
+        out["behaviours"] += len(done)
+        if done != rec:
+            out["enumeration_mismatch"][b.name] = {"only_model": len(done - rec), "only_real": len(rec - done)}
     return out
